@@ -828,14 +828,21 @@ def depth_guard_fns(F):
     """Local functions that refuse to go deeper than a crate constant: a `len == LIMIT -> OutOfMemory` test
     dominating a push on the same vector."""
     from props import C16
+    import framework
     limit = F.const("program::STACK_LIMIT") or 32
     out = set()
+    # an `== LIMIT` test bounds the depth only if every growth site of that vector enforces the same cap
+    capped = {}
+    for field in ("stack", "loop_stack"):
+        sub = framework.Check("scratch", "quick", 0, "other", F, {})
+        C16.cap_rule(sub, F, None, field, limit, 0)
+        capped[field] = not any(o.status == "violation" for o in sub.obs)
     for body in F.bodies.values():
         if body.crate != "abasic_core":
             continue
         for field in ("stack", "loop_stack"):
             guards = C16.find_len_guards(body, field, limit)
-            if not guards:
+            if not guards or not capped[field]:
                 continue
             for c in body.calls():
                 if c.callee.endswith("Vec::push") and C16.receiver_field(body, c) == (C16.PROGRAM, field):
